@@ -35,6 +35,12 @@ def gen_cases(ck):
                       "scale": float(10.0 ** ck.rng.uniform(-2, 2)), "shift": [float(ck.rng.normal() * 3), float(ck.rng.normal() * 3)],
                       "p_rev": float(ck.rng.choice([0.0, 0.5])), "shifts": True, "relabel": bool(ck.rng.integers(2)),
                       "fit": ["dlite", "taubinSVD"][int(ck.rng.integers(2))], "ignore_four": [None, False, True][int(ck.rng.integers(3))]})
+    for i in range(4 if ck.tier == "quick" else 20):
+        # the algebraic fit far from the origin (1e4..1e6 tissue sizes): the option must reach the matrix rows
+        cases.append({"type": "tissue", "seed": int(ck.rng.integers(1 << 30)), "tissue": ["random", "jitter"][i % 2], "sites": int(ck.rng.integers(14, 30)),
+                      "subset": None, "mobius": True, "strength": float(ck.rng.uniform(0.8, 2.0)), "kmin": 2, "kmax": 6, "param_mode": "uniform",
+                      "angle": float(ck.rng.uniform(0, 6.28)), "scale": 1.0, "shift": [float(10.0 ** ck.rng.uniform(4, 6)), float(-10.0 ** ck.rng.uniform(4, 6))],
+                      "p_rev": 0.5, "shifts": True, "relabel": False, "fit": "taubinSVD", "ignore_four": None})
     for i in range(6 if ck.tier == "quick" else 40):
         cases.append({"type": "tissue", "seed": int(ck.rng.integers(1 << 30)), "tissue": ["random", "jitter"][i % 2], "sites": int(ck.rng.integers(14, 30)),
                       "subset": None, "mobius": True, "strength": float(ck.rng.uniform(1.0, 2.5)), "kmin": 1, "kmax": [1, 3, 8][i % 3],
@@ -213,7 +219,8 @@ def run_case(ck, case, reqs, pending):
                     P = np.array([[frame.vertices[i].x, frame.vertices[i].y] for i in used[col]])
                     L = float(np.linalg.norm(P[0] - P[-1]))
                     R = float(np.hypot(P[0, 0] - cs[earr.index(used[col])][0], P[0, 1] - cs[earr.index(used[col])][1]))
-                    tol = TOL_ARC * max(1.0, R / L / 10.0, float(np.max(np.abs(P))) / L / 100.0)
+                    far = float(np.max(np.abs(P))) / L
+                    tol = TOL_ARC * max(1.0, R / L / 10.0, far / 100.0 if fit == "dlite" else 0.0) + (0.0 if fit == "dlite" else 1e-13 * far)
                 dev = float(np.max(np.abs(got[:, col] - expect[:, col])))
                 worst = max(worst, dev if col not in flagged else 0.0)
                 if dev > tol:
